@@ -565,7 +565,7 @@ func (l closeLog) Debug(string, watermill.LogFields)                {}
 func (l closeLog) Trace(string, watermill.LogFields)                {}
 func (l closeLog) With(watermill.LogFields) watermill.LoggerAdapter { return l }
 
-var closetoHows = []string{"held/cancel-ctx", "held/stop-all", "held/close", "held/subs-closed", "held/close+cancel", "never-started/close", "start-failed/close", "never-started/cancel-then-close", "start-failed/cancel-then-close"}
+var closetoHows = []string{"held/cancel-ctx", "held/stop-all", "held/close", "held/subs-closed", "held/close+cancel", "never-started/close", "start-failed/close", "never-started/cancel-ctx", "start-failed/cancel-ctx"}
 
 // closetoPer is one full enumeration of the close-timeout class (scenario x release x subscriber kind).
 const closetoPer = 9 * 2 * 2
@@ -605,8 +605,12 @@ func closeto(e *vlib.Env, j int) vlib.Result {
 	yieldP := []float64{0, 0.3}[rnd.Intn(2)]
 	closeAgain := rnd.Bool()
 	heldAt := []string{"handler-function", "publish"}[rnd.Intn(2)]
-	spec := fmt.Sprintf("scenario=%s event=%s release=%s gochannel=%v closeTimeout=%v handlers=%d heldHandlerFunctions=%d heldIn=%s oneStartedByRunHandlers=%v addedAfterRunNeverStarted=%d closeCalls=%d closeAgainAfterwards=%v yield=%.1f",
-		scenario, event, release, useGC, ct, nh, nheld, heldAt, lateStarted, nlate, closers, closeAgain, yieldP)
+	stopBefore := 0 // never-started / start-failed: this many of the started handlers are stopped before the event (all: only the handler(s) never started are left)
+	if scenario != "held" && rnd.Chance(0.5) {
+		stopBefore = rnd.Range(1, nh)
+	}
+	spec := fmt.Sprintf("scenario=%s event=%s release=%s gochannel=%v closeTimeout=%v handlers=%d stoppedBeforeTheEvent=%d heldHandlerFunctions=%d heldIn=%s oneStartedByRunHandlers=%v addedAfterRunNeverStarted=%d closeCalls=%d closeAgainAfterwards=%v yield=%.1f",
+		scenario, event, release, useGC, ct, nh, stopBefore, nheld, heldAt, lateStarted, nlate, closers, closeAgain, yieldP)
 	res := vlib.Result{Class: fmt.Sprintf("closeto/%s/%s", how, release), Spec: spec}
 	var closeErrors, fired atomic.Int32
 	leaked, _ := vlib.CountGoroutines(func(g vlib.Goroutine) bool { return g.Has("pubsub/sync.WaitGroupTimeout$") })
@@ -656,7 +660,6 @@ func closeto(e *vlib.Env, j int) vlib.Result {
 	if !w.ok() {
 		return finish()
 	}
-	started := append([]*hrec(nil), w.hs...)
 	// handlers that are added to the running router and are not started when the close comes
 	if scenario == "start-failed" {
 		w.useStartSubs(&fired, func(int) int { return 1 })
@@ -678,6 +681,20 @@ func closeto(e *vlib.Env, j int) vlib.Result {
 		for _, h := range w.hs[nh:] {
 			h.ss.open()
 		}
+	}
+	// some of the started handlers are stopped while the added ones wait: the router stays open for those
+	for _, i := range rnd.Perm(nh)[:stopBefore] {
+		if w.ok() {
+			st := w.stop(w.hs[i], what)
+			w.waitStopped(w.hs[i], st, what)
+		}
+	}
+	if !w.ok() {
+		return finish()
+	}
+	started := w.running()
+	if nheld > len(started) {
+		nheld = len(started)
 	}
 	// handler functions that are busy when the close comes
 	for _, i := range rnd.Perm(len(started))[:nheld] {
@@ -727,6 +744,13 @@ func closeto(e *vlib.Env, j int) vlib.Result {
 	case "cancel-ctx":
 		w.cancel()
 		what += "; the Run context was cancelled"
+		if nlate > 0 {
+			// "When ... the Run context is cancelled the router closes itself and Run returns nil" - also when a handler was
+			// added to the running router and never started: the started ones end with the context, the router must not wait
+			// for the one that never ran for longer than its CloseTimeout.
+			w.runNeverClause = "cancel-not-honoured-with-unstarted-handler"
+			res.Count("closeto_cancel_with_a_handler_never_started", 1)
+		}
 	case "stop-all":
 		for _, i := range rnd.Perm(len(started)) {
 			w.stop(started[i], what)
@@ -741,19 +765,6 @@ func closeto(e *vlib.Env, j int) vlib.Result {
 		w.cancel()
 		closeDone = doClose(closers)
 		what += "; the Run context was cancelled and Close was called"
-	case "cancel-then-close":
-		// A handler that was registered on the running router and never started keeps the router from closing itself when the
-		// Run context is cancelled (the started handlers end, the router waits for the one that never ran). Whether that is
-		// what "the Run context is cancelled -> the router closes itself" means for such a handler is not decided here: it
-		// is counted, not judged. The Close call that follows is judged like any other.
-		w.cancel()
-		vlib.Settle(wt)
-		res.Count("closeto_obs_cancel_with_a_handler_never_started", 1)
-		if !vlib.IsClosed(w.runDone) {
-			res.Count("closeto_obs_cancel_with_a_handler_never_started_run_did_not_return", 1)
-		}
-		closeDone = doClose(closers)
-		what += "; the Run context was cancelled, then Close was called"
 	}
 	if nheld > 0 {
 		what += fmt.Sprintf(" while %d handler function(s) were busy with a message", nheld)
